@@ -296,27 +296,44 @@ Definition esc_ok (s : cst) : Prop :=
   c_crashed s = false /\ (c_phase s = CWait \/ c_phase s = CEnd) /\
   (rank (c_kpc s) <> O \/ (c_kpc s = KFin /\ is_run (c_proc s) = false)).
 
+(* signals go out in the order TERM, INT, KILL, each at most once *)
+Definition sig_pre (o : list out) (k k' : kpc) : Prop :=
+  sigs o ++ sigs_from k' = sigs_from k \/
+  (sigs_from k' = [] /\ exists n, sigs o = firstn n (sigs_from k)).
+
 Lemma esc_step b s a s' o :
   esc_ok s -> a <> AKill -> cstep b s a = (s', o) ->
   esc_ok s' /\
   waited o + budget (c_kpc s') <= budget (c_kpc s) /\
   (rank (c_kpc s') <= rank (c_kpc s))%nat /\
   (a = AKillStep -> (rank (c_kpc s') <= pred (rank (c_kpc s)))%nat) /\
-  (exists n, sigs o ++ firstn n (sigs_from (c_kpc s')) = firstn (length (sigs o) + n) (sigs_from (c_kpc s))) /\
-  (length (sigs o) + length (sigs_from (c_kpc s')) <= length (sigs_from (c_kpc s)))%nat.
+  sig_pre o (c_kpc s) (c_kpc s').
 Proof.
-  intros (Hc & Hp & Hk) Ha HS. unfold esc_ok in *.
+  intros (Hc & Hp & Hk) Ha HS. unfold esc_ok, sig_pre in *.
   destruct s as [ph rpc act pend kpc tg proc gc dn cr]. cbn in Hc, Hp, Hk. subst cr.
   destruct a; try congruence;
   (destruct Hp; subst ph);
   (destruct kpc; cbn in Hk; try (exfalso; destruct Hk as [Hk|[Hk _]]; congruence));
   cstep_cases HS;
   try (destruct Hk as [Hk|[_ Hk]]; [congruence|]); try discriminate;
-  (split; [split; [reflexivity|split; [auto|first [left; discriminate|right; split; reflexivity]]]|]);
+  try ((split; [split; [reflexivity|split; [auto|first [left; discriminate|right; split; [reflexivity|first [reflexivity|assumption|destruct proc; try discriminate; reflexivity]]]]]|]);
   (split; [unfold et_done_ms, et_sigterm_ms, et_sigint_ms; lia|]);
   (split; [lia|]); (split; [intro; try discriminate; lia|]);
-  (split; [|lia]);
-  first [exists 0%nat; reflexivity | exists 1%nat; reflexivity | exists 2%nat; reflexivity | exists 3%nat; reflexivity ].
+  first [left; reflexivity | right; split; [reflexivity|exists 0%nat; reflexivity]]).
+Qed.
+
+Lemma sig_pre_trans o1 o2 k0 k1 k2 :
+  sig_pre o1 k0 k1 -> sig_pre o2 k1 k2 -> sig_pre (o1 ++ o2) k0 k2.
+Proof.
+  unfold sig_pre. rewrite sigs_app.
+  intros [A1|[B1 [n1 C1]]] [A2|[B2 [n2 C2]]].
+  - left. rewrite <- app_assoc, A2. exact A1.
+  - right. split; [exact B2|]. exists (length (sigs o1) + n2)%nat.
+    rewrite <- A1, firstn_app_2, C2. reflexivity.
+  - rewrite B1 in A2. apply app_eq_nil in A2. destruct A2 as [A2 A3].
+    right. split; [exact A3|]. exists n1. rewrite A2, app_nil_r. exact C1.
+  - right. split; [exact B2|]. exists n1. rewrite B1 in C2.
+    rewrite firstn_nil in C2. rewrite C2, app_nil_r. exact C1.
 Qed.
 
 Lemma esc_run b l : forall s s' t,
@@ -324,51 +341,484 @@ Lemma esc_run b l : forall s s' t,
   esc_ok s' /\
   waited t + budget (c_kpc s') <= budget (c_kpc s) /\
   (rank (c_kpc s') <= rank (c_kpc s) - count_killsteps l)%nat /\
-  (length (sigs t) + length (sigs_from (c_kpc s')) <= length (sigs_from (c_kpc s)))%nat /\
-  exists n, sigs t ++ firstn n (sigs_from (c_kpc s')) = firstn (length (sigs t) + n) (sigs_from (c_kpc s)).
+  sig_pre t (c_kpc s) (c_kpc s').
 Proof.
   induction l as [|a l IH]; intros s s' t HE HN HR; cbn in HR.
   - inv HR. cbn. repeat split; try exact (proj1 HE); try apply HE; try lia.
-    exists 0%nat. reflexivity.
+    left. reflexivity.
   - destruct (cstep b s a) as [s1 o1] eqn:E1. destruct (crun b s1 l) as [s2 o2] eqn:E2. inv HR.
     assert (Ha : a <> AKill) by (intro; subst; discriminate).
     assert (HN' : no_kill l = true) by (destruct a; try exact HN; discriminate).
-    destruct (esc_step _ _ _ _ _ HE Ha E1) as (HE1 & HW1 & HR1 & HS1 & [n1 Hn1] & HL1).
-    destruct (IH _ _ _ HE1 HN' E2) as (HE2 & HW2 & HR2 & HL2 & [n2 Hn2]).
+    destruct (esc_step _ _ _ _ _ HE Ha E1) as (HE1 & HW1 & HR1 & HS1 & HP1).
+    destruct (IH _ _ _ HE1 HN' E2) as (HE2 & HW2 & HR2 & HP2).
     split; [exact HE2|]. split; [rewrite waited_app; lia|].
     split.
     { destruct a; cbn [count_killsteps]; try lia. specialize (HS1 eq_refl). lia. }
-    rewrite sigs_app, app_length. split; [lia|].
-    exists n2. rewrite <- app_assoc, Hn2.
-    (* sigs o1 ++ firstn k (sigs_from k1) is a prefix of sigs_from k0 for every k *)
-    clear - Hn1 HL1 HL2.
-    set (k := (length (sigs o2) + n2)%nat).
-    destruct (Nat.le_gt_cases k n1) as [Hle|Hgt].
-    + replace (firstn k (sigs_from (c_kpc s1))) with (firstn k (firstn n1 (sigs_from (c_kpc s1)))).
-      2: { rewrite firstn_firstn. f_equal. lia. }
-      assert (E : firstn (length (sigs o1) + k) (sigs o1 ++ firstn n1 (sigs_from (c_kpc s1))) =
-                  sigs o1 ++ firstn k (firstn n1 (sigs_from (c_kpc s1)))).
-      { rewrite firstn_app_2. reflexivity. }
-      rewrite <- E, Hn1, firstn_firstn. f_equal. lia.
-    + (* k beyond n1: n1 must already cover everything that is left *)
-      assert (Hfull : forall m, (n1 <= m)%nat ->
-                sigs o1 ++ firstn m (sigs_from (c_kpc s1)) = firstn (length (sigs o1) + m) (sigs_from (c_kpc s))).
-      { intros m Hm.
-        destruct (Nat.le_gt_cases (length (sigs_from (c_kpc s1))) n1) as [Hl|Hl].
-        - rewrite (firstn_all2 (n:=m)) by lia. rewrite (firstn_all2 (n:=n1)) in Hn1 by lia.
-          rewrite Hn1.
-          assert (Hlen : length (sigs o1 ++ sigs_from (c_kpc s1)) =
-                         length (firstn (length (sigs o1) + n1) (sigs_from (c_kpc s)))) by (rewrite Hn1; reflexivity).
-          rewrite app_length, firstn_length in Hlen.
-          rewrite !firstn_all2 by lia. reflexivity.
-        - exfalso.
-          assert (Hlen : length (sigs o1 ++ firstn n1 (sigs_from (c_kpc s1))) =
-                         length (firstn (length (sigs o1) + n1) (sigs_from (c_kpc s)))) by (rewrite Hn1; reflexivity).
-          rewrite app_length, !firstn_length in Hlen.
-          (* both sides are cut at n1 resp. length+n1: fine, so look at the next element *)
-          clear Hfull. revert Hn1 Hlen Hl. 
-          destruct (c_kpc s), (c_kpc s1); cbn in *; intros; try lia;
-            destruct (sigs o1) as [|x1 [|x2 [|x3 ?]]]; cbn in *; try lia;
-            destruct n1 as [|[|[|?]]]; cbn in *; try lia; try discriminate. }
-      rewrite Hfull by lia. f_equal. lia.
+    eapply sig_pre_trans; eassumption.
 Qed.
+
+(* While the escalation of a task that was up is under way, three wake-ups of the Kill goroutine
+   (at most DONE_TIMEOUT + SIGTERM_TIMEOUT + SIGINT_TIMEOUT of sleeping) end it: the device process
+   is dead (it left, or SIGKILL was sent); the signals sent are, in this order and at most once
+   each, the ones still due (TERM, INT, KILL from the start). *)
+Lemma ctl_escalation_bounded b l s s' t :
+  esc_ok s -> no_kill l = true -> (3 <= count_killsteps l)%nat ->
+  crun b s l = (s', t) ->
+  c_crashed s' = false /\ c_kpc s' = KFin /\ is_run (c_proc s') = false /\
+  waited t <= et_done_ms + et_sigterm_ms + et_sigint_ms /\
+  exists n, sigs t = firstn n (sigs_from (c_kpc s)).
+Proof.
+  intros HE HN H3 HR.
+  destruct (esc_run b l s s' t HE HN HR) as ((Hc & Hp & Hk) & HW & HRk & HP).
+  assert (Hr3 : (rank (c_kpc s) <= 3)%nat) by (destruct (c_kpc s); cbn; lia).
+  assert (Hr0 : rank (c_kpc s') = O) by lia.
+  destruct Hk as [Hk|[Hk Hrun]]; [congruence|].
+  split; [exact Hc|]. split; [exact Hk|]. split; [exact Hrun|].
+  split.
+  { assert (budget (c_kpc s) <= et_done_ms + et_sigterm_ms + et_sigint_ms)
+      by (destruct (c_kpc s); cbn; unfold et_done_ms, et_sigterm_ms, et_sigint_ms; lia).
+    lia. }
+  destruct HP as [A|[_ B]]; [|exact B].
+  rewrite Hk in A. cbn in A. rewrite app_nil_r in A. exists (length (sigs t)).
+  rewrite <- A. symmetry. apply firstn_all.
+Qed.
+
+(* an accepted Kill of a task that is up starts the escalation (or finds the process gone) *)
+Lemma ckill_starts_escalation b s t s' o :
+  cinv s t -> c_crashed s = false -> c_phase s = CWait ->
+  cstep b s AKill = (s', o) -> has_crash o = false -> count_disc o = 0 ->
+  esc_ok s' /\ waited o = 0 /\
+  (sigs o = [] /\ c_kpc s' = KDone \/ sigs o = [TERM] /\ c_kpc s' = KInt \/
+   sigs o = [] /\ c_kpc s' = KFin).
+Proof.
+  intros (HP & HR & HI) Hcr Hph HS HC HD. unfold esc_ok, pend_ok in *.
+  destruct s as [ph rpc act pend kpc tg proc gc dn cr]. cbn in HP, HR, HI, Hcr, Hph. subst cr ph.
+  cstep_cases HS; try discriminate;
+  try (exfalso; assert (rpc = false) by (apply HR; congruence); subst; discriminate).
+  all: try ((split; [split; [reflexivity|split; [left; reflexivity|first [left; discriminate|right; split; [reflexivity|destruct proc; try discriminate; reflexivity]]]]|]);
+  (split; [reflexivity|]); auto).
+Qed.
+
+(* the forked child of the device: the escalation signals the reported pid, not the group *)
+Lemma ctl_gc_false_step b s a s' o :
+  bh_fork b = false -> c_gc s = false -> cstep b s a = (s', o) -> c_gc s' = false.
+Proof.
+  intros Hf Hg HS. destruct s as [ph rpc act pend kpc tg proc gc dn cr]. cbn in Hg. subst gc.
+  cstep_cases HS; try reflexivity; try assumption.
+Qed.
+
+Lemma ctl_gc_false b l : forall s,
+  bh_fork b = false -> c_gc s = false -> c_gc (fst (crun b s l)) = false.
+Proof.
+  induction l as [|a l IH]; intros s Hf Hg; cbn; [exact Hg|].
+  destruct (cstep b s a) as [s1 o1] eqn:E1.
+  specialize (IH s1 Hf (ctl_gc_false_step _ _ _ _ _ Hf Hg E1)).
+  destruct (crun b s1 l). exact IH.
+Qed.
+
+Definition fbeh : beh := mkBeh (DExit 0) true true true None false.
+Lemma ctl_kill_leaves_forked_child :
+  let '(s, t) := crun fbeh cinit [ALaunch; ADialOk; APollReady; AKill; AKillStep; AKillStep; AKillStep] in
+  c_crashed s = false /\ c_kpc s = KFin /\ sigs t = [TERM; INT; KILL9] /\
+  is_run (c_proc s) = false /\ c_gc s = true.
+Proof. vm_compute. repeat split; reflexivity. Qed.
+
+(* ====================================================================================== *)
+(* basic and hook tasks                                                                    *)
+(* ====================================================================================== *)
+Lemma brun_inv (P : bst -> list out -> Prop) b hook :
+  (forall s t a s' o, P s t -> bstep b hook s a = (s', o) -> P s' (t ++ o)) ->
+  forall l s t s' o, P s t -> brun b hook s l = (s', o) -> P s' (t ++ o).
+Proof.
+  intros HS l. induction l as [|a l IH]; intros s t s' o HP HR; cbn in HR.
+  - inv HR. rewrite app_nil_r. exact HP.
+  - destruct (bstep b hook s a) as [s1 o1] eqn:E1.
+    destruct (brun b hook s1 l) as [s2 o2] eqn:E2. inv HR.
+    rewrite app_assoc. eapply IH; [|exact E2]. eapply HS; eassumption.
+Qed.
+
+(* the part of the state the status updates depend on *)
+Definition core3 (s : bst) : bool * bool * bool := (b_launched s, b_active s, b_timer s).
+
+Ltac bfun_cases :=
+  repeat match goal with
+         | |- context [match ?x with _ => _ end] => destruct x eqn:?
+         | |- context [if ?x then _ else _] => destruct x eqn:?
+         end.
+
+Lemma stop_kill_part_core s :
+  core3 (fst (stop_kill_part s)) = core3 s /\ statuses (snd (stop_kill_part s)) = [].
+Proof. unfold stop_kill_part. bfun_cases; cbn; split; reflexivity. Qed.
+
+Lemma stop_push_core s :
+  core3 (fst (stop_push s)) = core3 s /\ statuses (snd (stop_push s)) = [].
+Proof.
+  unfold stop_push. destruct (b_pending s).
+  - split; reflexivity.
+  - destruct (stop_kill_part_core (set_pending s (Some KILLED))) as [A B]. split; assumption.
+Qed.
+
+Lemma stop_basic_core s :
+  core3 (fst (stop_basic s)) = core3 s /\ statuses (snd (stop_basic s)) = [].
+Proof.
+  unfold stop_basic. bfun_cases; try (split; reflexivity); apply stop_push_core.
+Qed.
+
+Lemma breq_core b hook s r :
+  core3 (fst (breq b hook s r)) = core3 s /\ statuses (snd (breq b hook s r)) = [].
+Proof.
+  unfold breq. bfun_cases; try (split; reflexivity); apply stop_basic_core.
+Qed.
+
+Lemma breap_core s i :
+  core3 (fst (breap s i)) = core3 s /\ statuses (snd (breap s i)) = [].
+Proof.
+  unfold breap. bfun_cases; try (split; reflexivity).
+  match goal with H : stop_kill_part ?x = _ |- _ =>
+    destruct (stop_kill_part_core x) as [A B]; rewrite H in A, B end.
+  cbn in *. split; assumption.
+Qed.
+
+(* what has been reported so far, as a function of (launched, active, timer armed) *)
+Definition binv (s : bst) (t : list out) : Prop :=
+  match core3 s with
+  | (false, a, tm) => a = false /\ tm = false /\ statuses t = []
+  | (true, true, true) => statuses t = []
+  | (true, false, true) => statuses t = [FINISHED]
+  | (true, true, false) => statuses t = [RUNNING]
+  | (true, false, false) => statuses t = [RUNNING; FINISHED] \/ statuses t = [FINISHED; RUNNING]
+  end.
+
+Lemma binv_step b hook s t a s' o :
+  binv s t -> bstep b hook s a = (s', o) -> binv s' (t ++ o).
+Proof.
+  intros HI HS. unfold binv in *. rewrite statuses_app.
+  destruct a;
+  try (destruct (breq_core b hook s r) as [A B]);
+  try (destruct (breap_core s i) as [A B]);
+  destruct s as [la ac tm cmd ch pe bl cr]; unfold bstep in HS; cbn in HS, HI;
+  (destruct cr; [inv HS; cbn; rewrite app_nil_r; exact HI|]);
+  try (inv HS; cbn; rewrite app_nil_r; exact HI).
+  - (* ALaunch *)
+    destruct la; inv HS; cbn; rewrite ?app_nil_r; [exact HI|].
+    destruct HI as (_ & _ & HI). exact HI.
+  - (* AKill *)
+    destruct ac; inv HS; cbn; rewrite ?app_nil_r; [|exact HI].
+    destruct la; [|destruct HI; discriminate].
+    destruct tm; rewrite HI; cbn; auto.
+  - (* AReq *)
+    rewrite HS in A, B. cbn in A, B. rewrite A, B, app_nil_r. exact HI.
+  - (* ATimer *)
+    destruct tm; inv HS; cbn; rewrite ?app_nil_r; [|exact HI].
+    destruct la; [|destruct HI as (_ & HI & _); discriminate].
+    destruct ac; rewrite HI; cbn; auto.
+  - (* AExit *)
+    destruct (nth_error ch i) as [[[] gc]|]; inv HS; cbn; rewrite app_nil_r; exact HI.
+  - (* AReap *)
+    rewrite HS in A, B. cbn in A, B. rewrite A, B, app_nil_r. exact HI.
+Qed.
+
+Lemma binv_reach b hook l s t : brun b hook binit l = (s, t) -> binv s t.
+Proof.
+  intro HR. change t with ([] ++ t).
+  eapply (brun_inv binv b hook (binv_step b hook)); [|exact HR].
+  unfold binv; cbn. auto.
+Qed.
+
+Definition is_rf (x : status) : bool := match x with RUNNING | FINISHED => true | _ => false end.
+
+(* at most one terminal status, whatever the schedule; and it is never FAILED *)
+Lemma basic_at_most_one_terminal b hook l s t :
+  brun b hook binit l = (s, t) ->
+  (count_terminal (statuses t) <= 1)%nat /\ forallb is_rf (statuses t) = true.
+Proof.
+  intro HR. pose proof (binv_reach _ _ _ _ _ HR) as HI. unfold binv in HI.
+  destruct (core3 s) as [[[] []] []];
+    repeat match goal with H : _ /\ _ |- _ => destruct H | H : _ \/ _ |- _ => destruct H end;
+    match goal with H : statuses t = _ |- _ => rewrite H end; cbn; split; (lia || reflexivity).
+Qed.
+
+(* a terminal status is reported only in answer to KILL: the reaper of a basic or hook task
+   sends the device event only *)
+Fixpoint has_akill (l : list action) : bool :=
+  match l with [] => false | AKill :: _ => true | _ :: r => has_akill r end.
+
+Lemma bstep_status_only_kill b hook s a s' o :
+  bstep b hook s a = (s', o) -> a <> AKill -> existsb terminal (statuses o) = false.
+Proof.
+  intros HS Ha. unfold bstep in HS. destruct (b_crashed s); [inv HS; reflexivity|].
+  destruct a; try congruence; try (inv HS; reflexivity).
+  - destruct (b_launched s); inv HS; reflexivity.
+  - destruct (breq_core b hook s r) as [_ B]. rewrite HS in B. cbn in B. rewrite B. reflexivity.
+  - destruct (b_timer s); inv HS; reflexivity.
+  - destruct (nth_error (b_children s) i) as [[[] gc]|]; inv HS; reflexivity.
+  - destruct (breap_core s i) as [_ B]. rewrite HS in B. cbn in B. rewrite B. reflexivity.
+Qed.
+
+Lemma basic_terminal_only_on_kill b hook l : forall s,
+  has_akill l = false -> existsb terminal (statuses (snd (brun b hook s l))) = false.
+Proof.
+  induction l as [|a l IH]; intros s HK; cbn; [reflexivity|].
+  destruct (bstep b hook s a) as [s1 o1] eqn:E1.
+  assert (Ha : a <> AKill) by (intro; subst; discriminate).
+  assert (HK' : has_akill l = false) by (destruct a; try exact HK; discriminate).
+  specialize (IH s1 HK'). destruct (brun b hook s1 l) as [s2 o2]. cbn in *.
+  rewrite statuses_app, existsb_app, IH, (bstep_status_only_kill _ _ _ _ _ _ E1 Ha). reflexivity.
+Qed.
+
+(* "nothing after the terminal status" fails: KILL within the 200 ms before the RUNNING timer *)
+Lemma basic_status_after_terminal :
+  statuses (snd (brun nbeh false binit [ALaunch; AKill; ATimer])) = [FINISHED; RUNNING].
+Proof. vm_compute. reflexivity. Qed.
+
+(* ... and holds when no KILL is handled while the timer is still armed *)
+Definition binv_strict (s : bst) (t : list out) : Prop :=
+  match core3 s with
+  | (false, a, tm) => a = false /\ tm = false /\ statuses t = []
+  | (true, true, true) => statuses t = []
+  | (true, false, true) => False
+  | (true, true, false) => statuses t = [RUNNING]
+  | (true, false, false) => statuses t = [RUNNING; FINISHED]
+  end.
+
+Lemma binv_strict_step b hook s t a s' o :
+  binv_strict s t -> (a = AKill -> b_timer s = false) ->
+  bstep b hook s a = (s', o) -> binv_strict s' (t ++ o).
+Proof.
+  intros HI HT HS. unfold binv_strict in *. rewrite statuses_app.
+  destruct a;
+  try (destruct (breq_core b hook s r) as [A B]);
+  try (destruct (breap_core s i) as [A B]);
+  destruct s as [la ac tm cmd ch pe bl cr]; unfold bstep in HS; cbn in HS, HI, HT;
+  (destruct cr; [inv HS; cbn; rewrite app_nil_r; exact HI|]);
+  try (inv HS; cbn; rewrite app_nil_r; exact HI).
+  - destruct la; inv HS; cbn; rewrite ?app_nil_r; [exact HI|].
+    destruct HI as (_ & _ & HI). exact HI.
+  - rewrite (HT eq_refl) in *.
+    destruct ac; inv HS; cbn; rewrite ?app_nil_r; [|exact HI].
+    destruct la; [|destruct HI; discriminate].
+    rewrite HI; reflexivity.
+  - rewrite HS in A, B. cbn in A, B. rewrite A, B, app_nil_r. exact HI.
+  - destruct tm; inv HS; cbn; rewrite ?app_nil_r; [|exact HI].
+    destruct la; [|destruct HI as (_ & HI & _); discriminate].
+    destruct ac; [|contradiction]. rewrite HI; reflexivity.
+  - destruct (nth_error ch i) as [[[] gc]|]; inv HS; cbn; rewrite app_nil_r; exact HI.
+  - rewrite HS in A, B. cbn in A, B. rewrite A, B, app_nil_r. exact HI.
+Qed.
+
+Lemma basic_one_terminal_gen b hook l : forall s t,
+  binv_strict s t ->
+  (forall l1 l2, l = l1 ++ AKill :: l2 -> b_timer (fst (brun b hook s l1)) = false) ->
+  binv_strict (fst (brun b hook s l)) (t ++ snd (brun b hook s l)).
+Proof.
+  induction l as [|a l IH]; intros s t HI HT; cbn.
+  - rewrite app_nil_r. exact HI.
+  - destruct (bstep b hook s a) as [s1 o1] eqn:E1.
+    assert (Ha : a = AKill -> b_timer s = false).
+    { intro; subst. exact (HT [] l eq_refl). }
+    pose proof (binv_strict_step _ _ _ _ _ _ _ HI Ha E1) as HI1.
+    specialize (IH s1 (t ++ o1) HI1).
+    destruct (brun b hook s1 l) as [s2 o2] eqn:E2. cbn in *. rewrite app_assoc. apply IH.
+    intros l1 l2 El. specialize (HT (a :: l1) l2). cbn in HT. rewrite E1 in HT.
+    subst l. specialize (HT eq_refl). destruct (brun b hook s1 l1); exact HT.
+Qed.
+
+Lemma basic_one_terminal_partial b hook l :
+  (forall l1 l2, l = l1 ++ AKill :: l2 -> b_timer (fst (brun b hook binit l1)) = false) ->
+  status_ok (statuses (snd (brun b hook binit l))) = true.
+Proof.
+  intro HT.
+  pose proof (basic_one_terminal_gen b hook l binit [] (ltac:(unfold binv_strict; cbn; auto)) HT) as HG.
+  rewrite app_nil_l in HG. unfold binv_strict in HG.
+  destruct (core3 (fst (brun b hook binit l))) as [[[] []] []];
+    try contradiction;
+    try (destruct HG as (_ & _ & HG));
+    rewrite HG; reflexivity.
+Qed.
+
+(* ---------- crashes and blocked handlers (basic / hook) ---------- *)
+(* with the nil test in ensureBasicTaskKilled, the only way to crash is a STOP handler that was
+   blocked on the full pending channel and is let through after KILL dropped the command handle *)
+Lemma stop_kill_part_cmd s i :
+  b_cmd s = Some i ->
+  has_crash (snd (stop_kill_part s)) = false /\ b_crashed (fst (stop_kill_part s)) = b_crashed s /\
+  b_blocked (fst (stop_kill_part s)) = b_blocked s.
+Proof.
+  intro Hc. unfold stop_kill_part. rewrite Hc.
+  destruct (nth_error (b_children s) i); [destruct (group_has_proc c)|]; cbn; auto.
+Qed.
+
+Lemma bstep_no_crash b hook s a s' o :
+  b_crashed s = false -> b_blocked s = O -> bstep b hook s a = (s', o) ->
+  has_crash o = false /\ b_crashed s' = false.
+Proof.
+  intros Hc Hb HS.
+  destruct s as [la ac tm cmd ch pe bl cr]. cbn in Hc, Hb. subst cr bl.
+  unfold bstep in HS; cbn in HS.
+  destruct a; try (inv HS; split; reflexivity).
+  - destruct la; inv HS; split; reflexivity.
+  - destruct ac; inv HS; split; reflexivity.
+  - unfold breq in HS; cbn in HS.
+    destruct ac; cbn in HS; [|inv HS; split; reflexivity].
+    destruct r; try (inv HS; split; reflexivity);
+      try (destruct hook; inv HS; split; reflexivity).
+    destruct hook; [inv HS; split; reflexivity|].
+    unfold stop_basic in HS; cbn in HS. try rewrite stop_guards_nil in HS.
+    destruct cmd as [i|]; [|inv HS; split; reflexivity].
+    destruct (nth_error ch i) as [[st gc]|] eqn:En; [|inv HS; split; reflexivity].
+    assert (HP : forall s0, b_cmd s0 = Some i -> b_crashed s0 = false ->
+                 has_crash (snd (stop_push s0)) = false /\ b_crashed (fst (stop_push s0)) = false).
+    { intros s0 H0 H1. unfold stop_push. destruct (b_pending s0) eqn:Ep.
+      - cbn. split; [reflexivity|exact H1].
+      - destruct (stop_kill_part_cmd (set_pending s0 (Some KILLED)) i H0) as (A & B & _).
+        rewrite B. split; [exact A|exact H1]. }
+    cbn in HS.
+    destruct st as [|d|[c|]]; try (inv HS; split; reflexivity);
+      match type of HS with stop_push ?x = _ =>
+        destruct (HP x eq_refl eq_refl) as [A B]; rewrite HS in A, B; split; assumption end.
+  - destruct tm; inv HS; split; reflexivity.
+  - destruct (nth_error ch i) as [[[] gc]|]; inv HS; split; reflexivity.
+  - unfold breap in HS; cbn in HS.
+    destruct (nth_error ch i) as [[[|d|d] gc]|]; try (inv HS; split; reflexivity).
+    cbn in HS. destruct pe; inv HS; split; reflexivity.
+Qed.
+
+Lemma basic_no_crash_gen b hook l : forall s,
+  b_crashed s = false ->
+  (forall l1 l2, l = l1 ++ l2 -> b_blocked (fst (brun b hook s l1)) = O) ->
+  has_crash (snd (brun b hook s l)) = false /\ b_crashed (fst (brun b hook s l)) = false.
+Proof.
+  induction l as [|a l IH]; intros s Hc HB; cbn.
+  - split; [reflexivity|exact Hc].
+  - destruct (bstep b hook s a) as [s1 o1] eqn:E1.
+    pose proof (HB [] (a :: l) eq_refl) as Hb0. cbn in Hb0.
+    destruct (bstep_no_crash _ _ _ _ _ _ Hc Hb0 E1) as [Ho1 Hc1].
+    specialize (IH s1 Hc1).
+    destruct (brun b hook s1 l) as [s2 o2] eqn:E2. cbn in *.
+    rewrite has_crash_app, Ho1. cbn. apply IH.
+    intros l1 l2 El. specialize (HB (a :: l1) l2). cbn in HB. rewrite E1 in HB.
+    subst l. specialize (HB eq_refl). destruct (brun b hook s1 l1); exact HB.
+Qed.
+
+(* as long as no STOP handler blocks on the pending channel the executor does not crash *)
+Lemma basic_no_crash_partial b hook l :
+  (forall l1 l2, l = l1 ++ l2 -> b_blocked (fst (brun b hook binit l1)) = O) ->
+  has_crash (snd (brun b hook binit l)) = false /\ b_crashed (fst (brun b hook binit l)) = false.
+Proof. apply basic_no_crash_gen. reflexivity. Qed.
+
+(* hook tasks never block and never crash: STOP is a no-op for them *)
+Lemma hook_step_safe b s a s' o :
+  b_crashed s = false -> b_blocked s = O -> bstep b true s a = (s', o) -> b_blocked s' = O.
+Proof.
+  intros Hc Hb HS.
+  destruct s as [la ac tm cmd ch pe bl cr]. cbn in Hc, Hb. subst cr bl.
+  unfold bstep in HS; cbn in HS.
+  destruct a; try (inv HS; reflexivity).
+  - destruct la; inv HS; reflexivity.
+  - destruct ac; inv HS; reflexivity.
+  - unfold breq in HS; cbn in HS.
+    destruct ac; cbn in HS; [|inv HS; reflexivity].
+    destruct r; inv HS; reflexivity.
+  - destruct tm; inv HS; reflexivity.
+  - destruct (nth_error ch i) as [[[] gc]|]; inv HS; reflexivity.
+  - unfold breap in HS; cbn in HS.
+    destruct (nth_error ch i) as [[[|d|d] gc]|]; try (inv HS; reflexivity).
+    cbn in HS. destruct pe; inv HS; reflexivity.
+Qed.
+
+Lemma hook_never_blocks b l : forall s,
+  b_crashed s = false -> b_blocked s = O ->
+  b_blocked (fst (brun b true s l)) = O /\ has_crash (snd (brun b true s l)) = false.
+Proof.
+  induction l as [|a l IH]; intros s Hc Hb; cbn; [auto|].
+  destruct (bstep b true s a) as [s1 o1] eqn:E1.
+  destruct (bstep_no_crash _ _ _ _ _ _ Hc Hb E1) as [Ho1 Hc1].
+  pose proof (hook_step_safe _ _ _ _ _ Hc Hb E1) as Hb1.
+  specialize (IH s1 Hc1 Hb1). destruct (brun b true s1 l) as [s2 o2]. cbn in *.
+  rewrite has_crash_app, Ho1. exact IH.
+Qed.
+
+Lemma hook_no_crash b l :
+  has_crash (snd (brun b true binit l)) = false.
+Proof. apply (hook_never_blocks b l binit); reflexivity. Qed.
+
+(* the witnesses: a child that died by a signal leaves a stale final state behind at the next
+   STOP; the STOP of the next run then blocks for as long as that child lives (hang), and a KILL
+   in between makes the released handler dereference the dropped command handle (crash) *)
+Definition sbeh : beh := mkBeh DSig false false true None false.
+Definition stuck_sched : list action :=
+  [ALaunch; ATimer; AReq RStart; AExit 0; AReap 0; AReq RStop; AReq RStart; AReq RStop].
+
+Lemma basic_stop_hangs :
+  let '(s, t) := brun sbeh false binit stuck_sched in
+  b_blocked s = 1%nat /\ b_crashed s = false /\
+  nth_error (b_children s) 1 = Some (mkChild PRun false) /\
+  late_resps t = [true; false; true].     (* START, STOP, START answered; the second STOP is not *)
+Proof. vm_compute. repeat split; reflexivity. Qed.
+
+Lemma basic_crash_after_blocked_stop :
+  has_crash (snd (brun sbeh false binit (stuck_sched ++ [AKill; AExit 1; AReap 1]))) = true.
+Proof. vm_compute. reflexivity. Qed.
+
+(* ---------- STOP of a basic task kills the whole process group ---------- *)
+Lemma nth_error_upd {A} (l : list A) i x y :
+  nth_error l i = Some y -> nth_error (upd i x l) i = Some x.
+Proof.
+  revert i. induction l as [|z l IH]; intros [|i] H; cbn in *; try discriminate; auto.
+Qed.
+
+(* the repaired C17-a: the child is still running (or not yet reaped: ProcessState is nil) *)
+Lemma basic_stop_kills_group b s i c s' o :
+  b_crashed s = false -> b_active s = true -> b_pending s = None ->
+  b_cmd s = Some i -> nth_error (b_children s) i = Some c ->
+  (ch_st c = PRun \/ exists d, ch_st c = PZombie d) ->
+  bstep b false s (AReq RStop) = (s', o) ->
+  o = [OSig ToGroup KILL9; OResp RStop true] /\ b_crashed s' = false /\
+  b_pending s' = Some KILLED /\ b_blocked s' = b_blocked s /\
+  exists c', nth_error (b_children s') i = Some c' /\ child_live c' = false.
+Proof.
+  intros Hc Ha Hp Hcmd Hn Hst HS.
+  destruct s as [la ac tm cmd ch pe bl cr]. cbn in Hc, Ha, Hp, Hcmd, Hn. subst cr ac pe cmd.
+  destruct c as [st gc]. cbn in Hst.
+  unfold bstep, breq, stop_basic, stop_push, stop_kill_part in HS; cbn in HS.
+  rewrite Hn in HS. cbn in HS.
+  destruct Hst as [->|[d ->]]; cbn in HS; rewrite ?Hn in HS; cbn in HS; inv HS; cbn;
+    repeat split; eexists; (split; [eapply nth_error_upd; exact Hn | reflexivity]).
+Qed.
+
+(* ... and its reaper then reports the posted state: a single event, not voluntary, KILLED *)
+Lemma basic_reap_after_stop s i d gc s' o :
+  b_crashed s = false -> b_blocked s = O -> b_pending s = Some KILLED ->
+  nth_error (b_children s) i = Some (mkChild (PZombie d) gc) ->
+  breap s i = (s', o) ->
+  o = [OEvent false (exit_code d) KILLED] /\ b_pending s' = None.
+Proof.
+  intros Hc Hb Hp Hn HS. unfold breap in HS. rewrite Hn in HS. cbn in HS.
+  rewrite Hp, Hb in HS. inv HS. split; reflexivity.
+Qed.
+
+(* KILL of a basic or hook task never signals anything: the children are what they were *)
+Lemma basic_kill_leaves_children b hook s s' o :
+  bstep b hook s AKill = (s', o) -> b_children s' = b_children s /\ sigs o = [].
+Proof.
+  unfold bstep. destruct (b_crashed s); [intro H; inv H; auto|].
+  destruct (b_active s); intro H; inv H; auto.
+Qed.
+
+Lemma basic_kill_leaves_child_running :
+  let '(s, t) := brun nbeh false binit [ALaunch; ATimer; AReq RStart; AKill] in
+  statuses t = [RUNNING; FINISHED] /\ existsb child_live (b_children s) = true.
+Proof. vm_compute. split; reflexivity. Qed.
+
+Lemma hook_kill_leaves_child_running :
+  let '(s, t) := brun nbeh true binit [ALaunch; ATimer; AReq RTrigger; AKill] in
+  statuses t = [RUNNING; FINISHED] /\ existsb child_live (b_children s) = true.
+Proof. vm_compute. split; reflexivity. Qed.
+
+(* STOP after the main process has left (and was reaped): "already exited", nothing is signalled,
+   what the child had forked lives on *)
+Definition fkbeh : beh := mkBeh (DExit 0) false true true None false.
+Lemma basic_stop_leaves_forked_child :
+  let '(s, t) := brun fkbeh false binit [ALaunch; ATimer; AReq RStart; AExit 0; AReap 0; AReq RStop] in
+  sigs t = [] /\ late_resps t = [true; true] /\ existsb child_live (b_children s) = true.
+Proof. vm_compute. repeat split; reflexivity. Qed.
